@@ -83,6 +83,7 @@ def parser_layout(facts, res):
         outs = ip.run_all(k[0], [nommodel.cur(0)], {})
         if ip.unknown_callees:
             res.errors.append("unmodelled callees in %s: %r" % (fn, ip.unknown_callees))
+            continue      # the layout of a parser that is not followed precisely is not decided
         oks = [o for o in outs if o.kind == "return" and isinstance(o.value, Enum) and o.value.variant == models.OK and "try-branch-opaque" not in o.state.tags]
         res.ob(bool(oks))
         if not oks:
@@ -177,7 +178,7 @@ def run(ctx, res):
         for idx, e in enumerate(effs):
             if e[0] == "range-next":
                 heads = [x for x in effs[:idx] if x[0] == "loop-head"]
-                if heads and any(x[0] == "copy" and x[1] is not None and x[1][0] == "dram" and x[1][3] is True for x in effs[idx + 1:]):
+                if heads and any(x[0] == "copy" and x[1] is not None and x[1][0] == "dram" and x[2] is not None and x[2][0] == "bytes" for x in effs[idx + 1:]):
                     got_loops.add(heads[-1][1])
     res.inventory["relocation_loops"] = sorted(got_loops)
     res.ob(len(copy_loops) == 1)
@@ -346,9 +347,10 @@ def run(ctx, res):
             newv = bv.add(val, bv.const(BASE, 32))
             res.ob(len(copies) == 1)
             dst, src = copies[0][1], copies[0][2]
-            okk = dst is not None and dst[0] == "dram" and dst[3] is True
+            okk = dst is not None and dst[0] == "dram" and dst[1] is not None and dst[2] is not None
             d1 = differs(dst[1], gi, care) if okk else care
-            d2 = differs(dst[2], bv.add(gi, bv.const(3, 64)), care) if okk else care
+            # the four bytes gi .. gi+3: an inclusive range ends at gi+3, an exclusive one at gi+4
+            d2 = differs(dst[2], bv.add(gi, bv.const(3 if dst[3] else 4, 64)), care) if okk else care
             res.ob(d1 == 0 and d2 == 0)
             if d1 != 0 or d2 != 0:
                 res.finding("got|write-address", "the relocated word is not written back to the four indices it was read from", witness(d1 or d2))
